@@ -668,15 +668,20 @@ def _search_wildcard(elem, session, query=None):
     if value is None or value == "":
         value = "*"
 
+    if not query:
+        query = session.query(Instance)
+
+    if not value.strip("*"):
+        # '*' on its own matches any value, including a zero length one
+        #   (which is stored as NULL)
+        return query
+
     # Only '*' and '?' are wild cards, escape the SQL LIKE wild cards
     for char in ("\\", "%", "_"):
         value = value.replace(char, f"\\{char}")
 
     value = value.replace("*", "%")
     value = value.replace("?", "_")
-
-    if not query:
-        query = session.query(Instance)
 
     return query.filter(attr.like(value, escape="\\"))
 
